@@ -13,7 +13,10 @@ the `id` field the RECORD carries).  The theorems below say
   invariants hold of the keyed model after any tame run from any configuration of initial records — the general
   `WithModeOption(resource.WithInitialRecord(key, mode))` included — that the constructor accepts and whose records
   carry their keys (`C19_keyed_inv`);
-* that the collection's own invariant, distinct keys, needs no hypothesis at all (`C19_keyed_keys`);
+* that the collection's own invariant, distinct keys, needs no hypothesis at all (`C19_keyed_keys`); that the stream
+  events — the change of the one key an operation wrote — are those of `Events.lean` (`C19_keyed_events`); that a mode
+  made active by id cannot be deleted by that id (`C19_keyed_I2`); and what a subscriber that joins the streams later
+  sees (`C19_pull_late`);
 * what follows once a record does not carry its key, derived in the model (not only observed on the code): after the
   untame writes of `C19_options_fails`, or from a configuration with a foreign key, `ChangeActiveMode(key)` followed
   by `DeleteMode(key)` succeeds and deletes the active mode — I2 and I3 are lost (`C19_keyed_untame_fails`,
